@@ -5,6 +5,7 @@ import (
 	"go/token"
 	"go/types"
 	"path/filepath"
+	"sort"
 	"strings"
 	"sync"
 
@@ -27,6 +28,9 @@ type Program struct {
 	keyDescs map[string]keyDesc
 	scratch  *Exec
 	allFuncs map[*ssa.Function]bool
+	funcIDs  map[*ssa.Function]int
+	addrTaken []*ssa.Function
+	addrDone  bool
 }
 
 type keyDesc struct {
@@ -165,6 +169,79 @@ func (p *Program) GlobalFor(v *types.Var) *ssa.Global {
 	}
 	g, _ := sp.Members[v.Name()].(*ssa.Global)
 	return g
+}
+
+// FuncID gives every function a distinct positive integer (the model of a func value).
+func (p *Program) FuncID(f *ssa.Function) int {
+	p.mu.Lock()
+	defer p.mu.Unlock()
+	if p.funcIDs == nil {
+		p.funcIDs = map[*ssa.Function]int{}
+	}
+	if id, ok := p.funcIDs[f]; ok {
+		return id
+	}
+	id := 1000 + len(p.funcIDs)
+	p.funcIDs[f] = id
+	return id
+}
+
+// BoundTarget maps a bound-method wrapper to the method it wraps (other functions map to themselves);
+// go/ssa may create several wrappers for one method.
+func (p *Program) BoundTarget(f *ssa.Function) *ssa.Function {
+	if len(f.FreeVars) == 1 && f.Synthetic != "" {
+		if obj, ok := f.Object().(*types.Func); ok {
+			if t := p.SSA.FuncValue(obj); t != nil {
+				return t
+			}
+		}
+	}
+	return f
+}
+
+// AddressTaken lists module functions used as values (possible targets of indirect calls).
+func (p *Program) AddressTaken() []*ssa.Function {
+	p.mu.Lock()
+	defer p.mu.Unlock()
+	if p.addrDone {
+		return p.addrTaken
+	}
+	seen := map[*ssa.Function]bool{}
+	add := func(f *ssa.Function) {
+		if f != nil && !seen[f] && p.scratch.W.inModule(pkgOf(f)) {
+			seen[f] = true
+			p.addrTaken = append(p.addrTaken, f)
+		}
+	}
+	for fn := range p.allFuncs {
+		if !p.scratch.W.inModule(pkgOf(fn)) {
+			continue
+		}
+		for _, b := range fn.Blocks {
+			for _, in := range b.Instrs {
+				if mc, ok := in.(*ssa.MakeClosure); ok {
+					if f, ok := mc.Fn.(*ssa.Function); ok {
+						add(f)
+					}
+				}
+				var callee ssa.Value
+				if ci, ok := in.(ssa.CallInstruction); ok {
+					callee = ci.Common().Value
+				}
+				for _, op := range in.Operands(nil) {
+					if op == nil || *op == nil {
+						continue
+					}
+					if f, ok := (*op).(*ssa.Function); ok && ssa.Value(f) != callee {
+						add(f)
+					}
+				}
+			}
+		}
+	}
+	sort.Slice(p.addrTaken, func(i, j int) bool { return p.addrTaken[i].String() < p.addrTaken[j].String() })
+	p.addrDone = true
+	return p.addrTaken
 }
 
 func (p *Program) TypesPkg(path string) *types.Package {
@@ -308,6 +385,12 @@ func (p *Program) KeyInfo(ex *Exec, name string) *HeapKey {
 		return ex.keyPtr(d.elem)
 	case 'G':
 		return ex.keyGlobal(d.global)
+	case 'L':
+		a, n := ex.logKeys(name[2:])
+		if name[0] == 'L' {
+			return a
+		}
+		return n
 	}
 	return nil
 }
@@ -514,7 +597,9 @@ func (p *Program) callMods(fm *funcMods, cc *ssa.CallCommon, paramIdx map[*ssa.P
 				}
 				p.addRoot(fm.ms, ri, nil, map[string]bool{})
 			case *types.Signature:
-				fm.ms.all = true
+				if !deferredCallback[full] {
+					fm.ms.all = true
+				}
 			case *types.Interface:
 				if !pureExternal(full) && !sx.boxedExternal(a) {
 					fm.ms.all = true
@@ -522,6 +607,14 @@ func (p *Program) callMods(fm *funcMods, cc *ssa.CallCommon, paramIdx map[*ssa.P
 			}
 		}
 		return
+	}
+	if pc := p.ContractsFor(callee); pc != nil {
+		if fc := pc.Funcs[localKey(callee)]; fc != nil {
+			for _, lc := range fc.Logs {
+				fm.ms.keys[p.noteKey("L:"+lc.Name, keyDesc{kind: 'L'})] = true
+				fm.ms.keys[p.noteKey("N:"+lc.Name, keyDesc{kind: 'L'})] = true
+			}
+		}
 	}
 	fm.callees = append(fm.callees, calleeUse{callee, cc.Args})
 }
